@@ -1356,11 +1356,16 @@ class Container:
         # (the same cancellation hits a trace when the total is stated by mass or moles). Dilute: the solute itself is
         # less than a thousandth of what its concentration is stated per - a property of the request, not of the
         # solver's numbers (an enzyme's are in activity units, the solvent's in moles).
+        # (... three times over: a dilute solute may be stated per what another dilute solute measures - '0.3 U/U' of one
+        # enzyme next to a trace of another - and is then right only once that one is)
+        # (... or less than a thousandth of a stated total, in the total's unit)
         if concentration is not None:
-            for row in range(n):
+            total_row = index if total_quantity is not None else None
+            for row in list(range(n)) * 3:
                 per = Unit.parse_concentration(concentration[row])
                 top = convert_one(solute[row], per[1])
-                if b[row] == 0 and top and abs(a[row][row] + top) <= 1e-3 * abs(top):
+                minor = total_row is not None and abs(a[total_row][row] * xs[row]) <= 1e-3 * abs(b[total_row])
+                if b[row] == 0 and top and a[row][row] != 0 and (abs(a[row][row] + top) <= 1e-3 * abs(top) or minor):
                     xs[row] = -sum(a[row][column] * xs[column] for column in range(n + 1) if column != row) \
                         / a[row][row]
         if any(x <= 0 for x in xs):
